@@ -25,17 +25,32 @@ Definition add_to (a s : string) : string :=
 Definition del_all (names : list string) (m : values) : values :=
   fold_left (fun m n => values_del n m) names m.
 
-(** QueryParamsRemover.RemoveFrom *)
-Definition remove_from (names : list string) (q : string) : string :=
+(** the repair candidate of C15-F1 (fixes/C15-F1.diff): if the query does not
+    parse as a whole, the parameters are removed pair by pair and everything else
+    is kept byte for byte *)
+Definition keep_pair (names : list string) (pair : string) : bool :=
+  match query_unescape (fst (cut_on "=" pair)) with
+  | Some n => negb (existsb (String.eqb n) names)
+  | None => true
+  end.
+
+Definition remove_from_raw (names : list string) (q : string) : string :=
+  join_with "&" (filter (keep_pair names) (split_on "&" q)).
+
+(** QueryParamsRemover.RemoveFrom; [fixed] = with the repair of C15-F1 *)
+Definition remove_from_fx (fixed : bool) (names : list string) (q : string) : string :=
   if is_empty q || is_nil names then q
   else let '(vals, err) := parse_query q in
-       if err then q else values_encode (del_all names vals).
+       if err then (if fixed then remove_from_raw names q else q)
+       else values_encode (del_all names vals).
+
+Definition remove_from : list string -> string -> string := remove_from_fx false.
 
 Definition transform_path (rw : rewriter) (p : string) : string :=
   add_to (rw_add rw) (cut_from (rw_cut rw) p).
 
 (** URLRewriter.Rewrite *)
-Definition rewrite (rw : rewriter) (u : hurl) : hurl :=
+Definition rewrite_fx (fixed : bool) (rw : rewriter) (u : hurl) : hurl :=
   let raw' := transform_path rw (escaped_path (u_path u) (u_rawpath u)) in
   let rp1 := if is_empty (u_rawpath u) then u_rawpath u else raw' in
   let path' := unescape_or_empty raw' in
@@ -43,16 +58,20 @@ Definition rewrite (rw : rewriter) (u : hurl) : hurl :=
      u_host := u_host u;
      u_path := path';
      u_rawpath := if String.eqb path' raw' then rp1 else raw';
-     u_query := remove_from (rw_strip_q rw) (u_query u) |}.
+     u_query := remove_from_fx fixed (rw_strip_q rw) (u_query u) |}.
+
+Definition rewrite : rewriter -> hurl -> hurl := rewrite_fx false.
 
 (** Backend.CreateURL *)
-Definition create_url (b : backend) (u : hurl) : hurl :=
+Definition create_url_fx (fixed : bool) (b : backend) (u : hurl) : hurl :=
   let up := {| u_scheme := u_scheme u; u_host := b_host b; u_path := u_path u;
                u_rawpath := u_rawpath u; u_query := u_query u |} in
   match b_rw b with
-  | Some rw => rewrite rw up
+  | Some rw => rewrite_fx fixed rw up
   | None => up
   end.
+
+Definition create_url : backend -> hurl -> hurl := create_url_fx false.
 
 (** what the HTTP client writes into the request line for this URL *)
 Definition wire_path (u : hurl) : string := escaped_path (u_path u) (u_rawpath u).
